@@ -1009,6 +1009,10 @@ func c15(c *Ctx) {
 	c.Rule("C15.R7", "request bodies do not alias pooled buffers (C14.R6)", 1, func(r *Rule) {
 		pooledEscapes(w, r, "pool-escape:")
 	})
+
+	c.Rule("C15.R10", "every datapoint is in the body as it was dispatched: a series' slices in the outgoing message are its own, not a buffer re-used for the next series (C14.R8, shared)", 1, func(r *Rule) {
+		importObligations(c, r, c14, "C14.R8", nil)
+	})
 }
 
 func c20(c *Ctx) {
